@@ -34,7 +34,7 @@ def obligations(ctx):
         for k in (3, 16, 45):
             for avx in (0, 1):
                 obs.append(Ob("int/rotate-automorphism-add-normalize/N=%d/k=%d/avx=%d" % (nn, k, avx), "pipe.c", "h_pipe_int", {"NN": nn, "MM": max(nn // 2, 1), "K": k, "AVX": avx},
-                              ag.LIBS, unwind=80, inc=[t], family="integer pipeline", timeout=900,
+                              ag.LIBS, unwind=80, inc=[t], family="integer pipeline", timeout=900 if ctx.quick else 3600,
                               unwindset=",".join("%s.%d:%d" % (f, i, nn + 2) for f, n in (("znx_rotate_i64", 4), ("znx_rotate_inplace_i64", 2), ("znx_automorphism_inplace_i64", 6)) for i in range(n)),
                               desc="4 public calls on symbolic 2-limb vectors with symbolic p1, odd p2: result equals the balanced digits of sigma_p2(x*X^p1)+y computed in 128-bit arithmetic"))
     # integer pipeline through the big-coefficient space with fewer / as many / more output limbs than the big vector has
